@@ -6,6 +6,8 @@ package sim
 import (
 	"bytes"
 	"encoding/hex"
+	"errors"
+	"os"
 	"testing"
 	"testing/synctest"
 	"time"
@@ -290,4 +292,57 @@ func TestSelfC08MBAPLengthIgnoredSignature(t *testing.T) {
 	if len(vs) != 1 || vs[0].Sig != "C08|success_under_fault|client=tcp|fault=oversize|resp=*packet.ReadHoldingRegistersResponseTCP|mbap_length_ignored" {
 		t.Fatalf("unexpected: %+v", vs)
 	}
+}
+
+// A long history on one client: every exchange of the history brings its reply, the held responses stay what they
+// were, and the call under test is checked like any other (here: a healthy fragmented reply after 40 exchanges).
+func TestSelfLongHistoryOnOneClient(t *testing.T) {
+	var vs []Violation
+	var n int
+	synctest.Test(t, func(t *testing.T) {
+		tape := NewTape(12345)
+		rc := &RunCtx{Prop: "C07", Tier: "quick", Scen: tape, Sched: ReplayTape(nil)}
+		sc, ok := genC1BaseKind(tape, false, int(KTCP))
+		for !ok || sc.Req.FC == 23 || sc.Req.FC == 17 || sc.Req.FC == 5 {
+			sc, ok = genC1BaseKind(tape, false, int(KTCP))
+		}
+		sc.Chunks = []Chunk{{N: len(sc.Reply)}}
+		sc.ReadTimeout = 100 * time.Millisecond
+		hist := genHistory(rc, sc, 40, false)
+		first := RunC1Long(rc, chainCalls(append(append([]*C1(nil), hist...), sc)))
+		failed, changed := historyTrouble(hist, first)
+		if failed != "" || changed != "" {
+			t.Fatalf("history: %q %q", failed, changed)
+		}
+		main := outcomeOf(first, len(hist))
+		if main == nil {
+			t.Fatal("the call after the history did not take place")
+		}
+		checkC07(rc, sc, main)
+		vs, n = rc.Violations, len(hist)
+	})
+	if n != 40 || len(vs) != 0 {
+		t.Fatalf("history of %d exchanges, violations %+v", n, vs)
+	}
+}
+
+// A network connection whose read deadline has already passed fails a Read at once, bytes waiting or not.
+func TestSelfExpiredDeadlineBeatsWaitingBytes(t *testing.T) {
+	synctest.Test(t, func(t *testing.T) {
+		s := NewSim(ReplayTape(nil))
+		defer s.Activate()()
+		cl, _ := NewPipe(s, "c")
+		var n int
+		var err error
+		s.Go("reader", false, func(tk *Task) {
+			cl.Push(seg{data: []byte{1, 2, 3}, solo: true})
+			cl.SetReadDeadline(time.Now().Add(-time.Millisecond))
+			n, err = cl.Read(make([]byte, 8))
+		})
+		s.Run()
+		s.Drain()
+		if n != 0 || !errors.Is(err, os.ErrDeadlineExceeded) {
+			t.Fatalf("Read with a deadline in the past returned %d, %v", n, err)
+		}
+	})
 }
